@@ -44,6 +44,17 @@ def projection_kind(callee):
     return None
 
 
+VAR_DEFS = {}      # ('var', function, join block, root) -> the merged value it names
+_FIELD_CACHE = {}
+
+
+def expand_var(e):
+    """definition of a named merge value (one level), or e itself"""
+    while isinstance(e, tuple) and e and e[0] == 'var' and e in VAR_DEFS:
+        e = VAR_DEFS[e]
+    return e
+
+
 def is_unk(e):
     return isinstance(e, tuple) and e and e[0] == 'unk'
 
@@ -80,6 +91,7 @@ class Summary:
         self.stores = []      # dict(blk, si, line, target(ref), value, op)
         self.switches = {}    # blk -> discr expr
         self.asserts = []     # dict(blk, cond, expected, kind, ops)
+        self.defs = {}        # ('var', join block, root) -> merged value it names (large decision trees)
         self.ret = None       # expr of _0 at the return block(s)
         self.final = {}       # root -> expr at return
         self.cfg = None
@@ -227,6 +239,11 @@ def mk_field(v, name, an=None):
             continue
         if t == 'ite':
             return mk_ite(v[1], tuple((val, mk_field(x, name, an)) for val, x in v[2]))
+        if t == 'var' and v in VAR_DEFS:
+            k = (v, name)
+            if k not in _FIELD_CACHE:
+                _FIELD_CACHE[k] = mk_field(VAR_DEFS[v], name, an)
+            return _FIELD_CACHE[k]
         return ('field', v, name)
 
 
@@ -297,6 +314,7 @@ class _Pass:
         self.sum = Summary(body)
         self.sum.cfg = self.cfg
         self.record = False
+        self._sizes = {}
 
     def init_root(self, root):
         if root[0] == 'l':
@@ -528,7 +546,7 @@ class _Pass:
             if all(v == first for _, v in vals):
                 v = first
             else:
-                v = self.merge_value(bi, vals)
+                v = self.merge_value(bi, vals, root=r)
             if r in loop_roots:
                 for f in sorted(loop_roots[r]):
                     v = ('upd', v, f, ('loop', bi, (r, f)))
@@ -544,7 +562,41 @@ class _Pass:
                     out[r] = v
         return out
 
-    def merge_value(self, bi, vals):
+    SIZE_LIMIT = 1500
+
+    def tree_size(self, e):
+        """number of nodes of e as a tree (saturating), computed on the shared object graph"""
+        memo = self._sizes
+        cap = 10 * self.SIZE_LIMIT
+
+        def rec(x):
+            if not isinstance(x, tuple):
+                return 1
+            k = id(x)
+            if k in memo:
+                return memo[k][0]
+            n = 1
+            for c in x:
+                n += rec(c)
+                if n > cap:
+                    n = cap
+                    break
+            memo[k] = (n, x)    # keep x alive so that the id stays valid
+            return n
+        return rec(e)
+
+    def merge_value(self, bi, vals, root=None):
+        v = self._merge_value(bi, vals)
+        if root is not None and v[0] in ('ite', 'phi') and self.tree_size(v) > self.SIZE_LIMIT:
+            # name the merged value instead of embedding an ever growing decision tree
+            var = ('var', self.body.key, bi, root)
+            self.sum.defs[var] = v
+            VAR_DEFS[var] = v
+            _FIELD_CACHE.clear()
+            return var
+        return v
+
+    def _merge_value(self, bi, vals):
         # objects that are field updates of one common base are merged field by field
         peeled = [(p, peel_upd(v)) for p, v in vals]
         base = peeled[0][1][0]
@@ -559,7 +611,7 @@ class _Pass:
                 if all(x == f0 for _, x in fvals):
                     fv = f0
                 else:
-                    fv = self.merge_value(bi, fvals)
+                    fv = self._merge_value(bi, fvals)
                 v = ('upd', v, f, fv)
             return v
         return self.structure_phi(bi, vals)
@@ -731,6 +783,7 @@ class _Pass:
                 fin = exit_[rets[0]]
             else:
                 fin = self.merge(-2, [(r, exit_[r]) for r in rets], {})
+            fin = {r: expand_var(v) for r, v in fin.items()}
             self.sum.final = fin
             self.sum.ret = fin.get(('l', 0), ('unk', 'noret'))
         return self.sum
@@ -872,6 +925,9 @@ def show(e, depth=0):
         return 'phi@bb%d(%s)' % (e[1], ', '.join('bb%s:%s' % (p, show(x)) for p, x in e[2]))
     if t == 'loop':
         return 'loop@bb%d(%s)' % (e[1], e[2])
+    if t == 'var':
+        r = e[3]
+        return 'var@bb%s(%s)' % (e[2], ('_%d' % r[1]) if r[0] == 'l' else str(r))
     if t == 'constref':
         return '&const(%s)' % show(e[1])
     if t == 'constdef':
